@@ -328,28 +328,34 @@ def unit_corpus(unit):
     nonascii_keys = sorted(ord(k) for k, v in cmap.items() if ord(k) >= 128 and len(v) == 1 and len(k) == 1)
     images = set(cmap[chr(k)] for k in nonascii_keys)
     t_end = time.time() + unit['timeout']
+    by_image = {}
+    for k in nonascii_keys:
+        by_image.setdefault(cmap[chr(k)], []).append(k)
+    work = []
     for raw, v in unit['literals']:
-        positions = [j for j, ch in enumerate(raw) if ch in images]
-        if not positions or time.time() > t_end:
-            continue
+        for j, ch in enumerate(raw):
+            if ch in images:
+                work.append((raw, v, j))
+    # separators and punctuation first (that is where presentation handling lives), then round-robin over the literals
+    work.sort(key=lambda w: (w[0][w[2]].isalnum(), w[2]))
+    for raw, v, j in work:
+        if time.time() > t_end:
+            ur.res['limit'] = 'time'
+            break
+        keys = by_image[raw[j]]
 
         def body():
-            pos = z3.Int('pos')
-            E.CUR.add(z3.Or([pos == j for j in positions]))
+            # one concrete position of a doctest-valid presentation carries a symbolic look-alike of the character there
             la = z3.Int('lookalike')
-            E.CUR.add(z3.Or([la == k for k in nonascii_keys]))
-            img = z3.IntVal(0)
-            for k in nonascii_keys:
-                img = z3.If(la == k, ord(cmap[chr(k)]), img)
-            E.CUR.add(z3.And([z3.Implies(pos == j, img == ord(raw[j])) for j in positions]))
-            y = E.SStr([z3.If(pos == j, la, ord(raw[j])) if j in positions else ord(raw[j]) for j in range(len(raw))])
+            E.CUR.add(z3.Or([la == k for k in keys]))
+            y = E.SStr([la if i == j else ord(raw[i]) for i in range(len(raw))])
             try:
                 return y, ('ret', mod.validate(y))
             except VE as e:
                 return y, ('verr', type(e).__name__)
             except Exception as e:
                 return y, ('exc', type(e).__name__)
-        for st, out in E.explore(body, max_paths=400, timeout=max(1, t_end - time.time())):
+        for st, out in E.explore(body, max_paths=100, timeout=max(1, t_end - time.time())):
             if st is None:
                 ur.limit(out)
                 break
